@@ -6,6 +6,8 @@ namespace verif_use {
 TimeStamp ts_ctor_default() { return TimeStamp(); }
 TimeStamp ts_ctor_copy(const TimeStamp &o) { return TimeStamp(o); }
 TimeStamp &ts_assign(TimeStamp &a, const TimeStamp &b) { return a = b; }
+TimeStamp ts_ctor_move(TimeStamp &o) { return TimeStamp(std::move(o)); }
+TimeStamp &ts_assign_move(TimeStamp &a, TimeStamp &b) { return a = std::move(b); }
 size_t ts_value(const TimeStamp &t) { return (size_t)t; }
 void ts_renew(TimeStamp &t) { t.renew(); }
 void obs_notify(Observable &o) { o.notifyObservers(); }
